@@ -186,17 +186,27 @@ def _rec_tail(e):
 
 def deep(e):
     """An exception raised at the bottom of a runaway recursion can have any type (the interpreter limit is hit
-    inside arbitrary code); what matters is the recursion.  > 400 frames = runaway recursion."""
+    inside arbitrary code); what matters is the recursion.  A traceback nearly as deep as the interpreter limit =
+    runaway recursion (an exception merely raised deep inside a long but finite inference keeps its own key)."""
+    import sys
     n, tb = 0, e.__traceback__
     while tb is not None:
         n += 1
         tb = tb.tb_next
-    return n > 400
+    return n > 0.8 * sys.getrecursionlimit()
 
 
 def key_of(e):
     from harness.core import crash_key
     if isinstance(e, RecursionError) or deep(e):
+        if os.environ.get('C01_DEBUG_REC'):
+            import sys, traceback
+            n = 0
+            tb = e.__traceback__
+            while tb is not None:
+                n += 1
+                tb = tb.tb_next
+            sys.stderr.write('REC limit=%d frames=%d type=%s tail=%s\n' % (sys.getrecursionlimit(), n, type(e).__name__, _rec_tail(e)))
         return 'RecursionError@' + _rec_tail(e)
     return coarse(crash_key(e))
 
